@@ -54,8 +54,8 @@ DECOY_NAMES = ["properties", "additionalProperties", "patternProperties", "prope
 
 def plan(tier):
     if tier == "quick":
-        return {"shards": 16, "random": 100, "long_chains": [5, 20, 40], "timeout": 300}
-    return {"shards": 16, "random": 6000, "long_chains": [5, 20, 60, 120], "timeout": 3000}
+        return {"shards": 16, "random": 100, "long_chains": [5, 20, 40], "timeout": 900}
+    return {"shards": 16, "random": 6000, "long_chains": [5, 20, 60, 120], "timeout": 7200}
 
 
 SHARED_WRAPPERS = {}
